@@ -664,7 +664,31 @@ Definition git_revert (s : state) : result :=
 Inductive op :=
 | OAdd (p : path) | OMkdir (p : path) | ORemoveKeep (p : path) | ORemoveForce (p : path)
 | ORename (p q : path) | OMove (p d : path) | OPut (p : path) (c : list N) | OChmod (p : path) (x : bool)
-| OOsRm (p : path) | OOsMkdir (p : path) | OCommit | ORevert | OReopen.
+| OOsRm (p : path) | OOsMkdir (p : path) | OCommit | ORevert | OReopen
+| OMoveN (ps : list path) (d : path)      (* wt.move([p1; ..], d) *)
+| OSmartAdd (p : path).                   (* wt.smart_add([p]); modelled for a regular file below a versioned parent *)
+
+Definition move1 (f : format) (s : state) (p d : path) : result :=
+  match f with Bzr => bzr_move s p d | Git => git_move s p d end.
+(* one source after the other; a refusal keeps the moves already made *)
+Fixpoint move_many (f : format) (s : state) (ps : list path) (d : path) : result :=
+  match ps with
+  | [] => ok s
+  | p :: r => match move1 f s p d with
+              | Done SOk s' => move_many f s' r d
+              | other => other
+              end
+  end.
+Definition smart_add (f : format) (s : state) (p : path) : result :=
+  if isfile (sdisk s) p then
+    match f with
+    | Git => git_add s p
+    | Bzr => match path2id (sinv s) p, bzr_parent_check s p with
+             | None, Some _ => Stuck        (* smart_add would version the parents first: not modelled *)
+             | _, _ => bzr_add s p
+             end
+    end
+  else Stuck.
 
 Definition step (f : format) (s : state) (o : op) : result :=
   match o with
@@ -673,6 +697,8 @@ Definition step (f : format) (s : state) (o : op) : result :=
   | OOsRm p => op_osrm s p
   | OOsMkdir p => op_osmkdir s p
   | OReopen => ok s                      (* the abstract state has no unpersisted part *)
+  | OMoveN ps d => move_many f s ps d
+  | OSmartAdd p => smart_add f s p
   | _ =>
     match f with
     | Bzr => match o with
